@@ -116,27 +116,30 @@ theorem adjust_odd (n : Nat) (h : n % 2 = 1) : adjustKeySize n = n * 8 - 8 := by
   rw [Nat.mul_div_cancel _ (by decide : 0 < 8)]
   simp [h]
 
-theorem adjust_shownBits (k : Nat) : adjustKeySize (k / 8 + 1) = Spec.shownBits k := by
-  unfold Spec.shownBits
-  by_cases h : (k / 8) % 2 = 0
-  · rw [if_pos h, adjust_odd _ (by omega)]; omega
-  · rw [if_neg h, adjust_even _ (by omega)]; omega
-
-/-! ### certificates -/
+/-- `int(hexlify(·), 16)` of the magnitude bytes of `mpint n` is `n` -/
+theorem hexInt_mpBody (n : Nat) : hexInt (mpBody n) = .ok n := by
+  unfold hexInt
+  have : (mpBody n).isEmpty = false := by
+    cases h : mpBody n with
+    | nil => exact absurd h (mpBody_ne_nil n)
+    | cons a t => rfl
+  rw [this]
+  simp only [Bool.false_eq_true, if_false, mpBody_value]
 
 /-- the part of `__parse_ca_key` that looks inside the signature key -/
-def caInfo (caKey : Bytes) : Except Exn (Str × Nat) := do
+def caInfo (caKey : Bytes) : Except Exn (Str × Nat × Nat) := do
   let (tb, _, c) ← getBytes caKey
   let caType ← asciiDecode tb
-  if caType = tEd25519 then pure (caType, 32)
+  if caType = tEd25519 then pure (caType, 32, 0)
   else do
     let (_, _, c) ← getBytes c
     let (n, nLen, _) ← getBytes c
+    let bits ← (if caType = tRsa ∧ nLen > 0 then do let v ← hexInt n; pure (bitLen v) else pure 0)
     if Text.startsWith caType pEcdsa ∧ nLen > 0 then
       match n with
       | [] => .error .index
-      | b :: _ => if b = 4 then pure (caType, (nLen - 1) / 2) else pure (caType, nLen)
-    else pure (caType, nLen)
+      | b :: _ => if b = 4 then pure (caType, (nLen - 1) / 2, bits) else pure (caType, nLen, bits)
+    else pure (caType, nLen, bits)
 
 /-- everything of a certificate after the certified key's own fields -/
 def certTail (certType : Nat) (f : Spec.CertFields) (ca : Bytes) : Bytes :=
@@ -156,7 +159,7 @@ theorem parseCaKey_tail (f : Spec.CertFields) (ca : Bytes) (hf : f.fits) (hca : 
   rfl
 
 theorem parseCaKey_tail_other (ct : Nat) (hct : ct ≠ 2) (hlt : ct < 2 ^ 32) (f : Spec.CertFields) (ca : Bytes) :
-    parseCaKey (certTail ct f ca) = .ok ([], 0) := by
+    parseCaKey (certTail ct f ca) = .ok ([], 0, 0) := by
   unfold parseCaKey certTail
   simp only [drop_u64, take_u32, drop_u32, hexInt_u32 ct hlt, bind, Except.bind, hct, if_false, pure, Except.pure]
 
@@ -168,34 +171,36 @@ theorem ascii_ed448 : asciiDecode (Spec.ascii (s "ssh-ed448")) = .ok tEd448 := b
 theorem len_ed448 : (Spec.ascii (s "ssh-ed448")).length < 2 ^ 32 := by decide +kernel
 
 theorem caInfo_rsa (e n : Nat) (he : 0 < e) (hn : 0 < n) (hel : bitLen e / 8 + 1 < 2 ^ 32) (hnl : bitLen n / 8 + 1 < 2 ^ 32) :
-    caInfo (Spec.rsaBlob e n) = .ok (tRsa, bitLen n / 8 + 1) := by
+    caInfo (Spec.rsaBlob e n) = .ok (tRsa, bitLen n / 8 + 1, bitLen n) := by
   unfold caInfo Spec.rsaBlob
   rw [mpint_pos e he, mpint_pos n hn]
   have h3 : ¬ (tRsa = tEd25519) := by decide +kernel
   have h5 : Text.startsWith tRsa pEcdsa = false := by decide +kernel
+  have h6 : bitLen n / 8 + 1 > 0 := by omega
   simp only [List.append_assoc, getBytes_sstr _ _ len_rsa, bind, Except.bind, ascii_rsa, h3, if_false,
     getBytes_sstr _ _ (show (mpBody e).length < 2 ^ 32 by rw [mpBody_length]; exact hel),
     getBytes_sstr_nil _ (show (mpBody n).length < 2 ^ 32 by rw [mpBody_length]; exact hnl), h5, Bool.false_eq_true, false_and,
-    pure, Except.pure, mpBody_length]
+    pure, Except.pure, mpBody_length, h6, and_self, if_true, hexInt_mpBody]
 
-theorem caInfo_ed25519 (pk : Bytes) : caInfo (Spec.ed25519Blob pk) = .ok (tEd25519, 32) := by
+theorem caInfo_ed25519 (pk : Bytes) : caInfo (Spec.ed25519Blob pk) = .ok (tEd25519, 32, 0) := by
   unfold caInfo Spec.ed25519Blob
   simp only [getBytes_sstr _ _ len_ed25519, bind, Except.bind, ascii_ed25519, if_true, pure, Except.pure]
 
 def curves : List Str := [s "nistp256", s "nistp384", s "nistp521"]
 
 theorem caInfo_ecdsa (curve : Str) (hc : curve ∈ curves) (x y : Bytes) (hl : 1 + (x.length + y.length) < 2 ^ 32) :
-    caInfo (Spec.ecdsaBlob curve x y) = .ok (s "ecdsa-sha2-" ++ curve, (x.length + y.length) / 2) := by
+    caInfo (Spec.ecdsaBlob curve x y) = .ok (s "ecdsa-sha2-" ++ curve, (x.length + y.length) / 2, 0) := by
   have hfacts : (Spec.ascii (s "ecdsa-sha2-" ++ curve)).length < 2 ^ 32 ∧ (Spec.ascii curve).length < 2 ^ 32 ∧
       asciiDecode (Spec.ascii (s "ecdsa-sha2-" ++ curve)) = .ok (s "ecdsa-sha2-" ++ curve) ∧
-      ¬ (s "ecdsa-sha2-" ++ curve = tEd25519) ∧ Text.startsWith (s "ecdsa-sha2-" ++ curve) pEcdsa = true := by
+      ¬ (s "ecdsa-sha2-" ++ curve = tEd25519) ∧ Text.startsWith (s "ecdsa-sha2-" ++ curve) pEcdsa = true ∧
+      ¬ (s "ecdsa-sha2-" ++ curve = tRsa) := by
     simp only [curves, List.mem_cons, List.not_mem_nil, or_false] at hc
     rcases hc with rfl | rfl | rfl <;> decide +kernel
-  obtain ⟨l1, l2, ha, hne, hp⟩ := hfacts
+  obtain ⟨l1, l2, ha, hne, hp, hnr⟩ := hfacts
   unfold caInfo Spec.ecdsaBlob
   have hq : ((4 : UInt8) :: (x ++ y)).length < 2 ^ 32 := by simp only [List.length_cons, List.length_append]; omega
   have hq2 : ((4 : UInt8) :: (x ++ y)).length = x.length + y.length + 1 := by simp
-  simp only [List.append_assoc, getBytes_sstr _ _ l1, bind, Except.bind, ha, hne, if_false, getBytes_sstr _ _ l2,
+  simp only [List.append_assoc, getBytes_sstr _ _ l1, bind, Except.bind, ha, hne, hnr, false_and, if_false, getBytes_sstr _ _ l2,
     getBytes_sstr_nil _ hq, hp, true_and, pure, Except.pure]
   rw [hq2]
   simp
@@ -203,7 +208,7 @@ theorem caInfo_ecdsa (curve : Str) (hc : curve ∈ curves) (x y : Bytes) (hl : 1
 /-! ### whole blobs -/
 
 theorem parse_rsa (e n : Nat) (he : 0 < e) (hn : 0 < n) (hel : bitLen e / 8 + 1 < 2 ^ 32) (hnl : bitLen n / 8 + 1 < 2 ^ 32) :
-    parseHostKey (Spec.rsaBlob e n) = .ok { keyType := tRsa, nLen := bitLen n / 8 + 1, caType := [], caNLen := 0 } := by
+    parseHostKey (Spec.rsaBlob e n) = .ok { keyType := tRsa, nLen := bitLen n / 8 + 1, nBits := bitLen n, caType := [], caNLen := 0, caNBits := 0 } := by
   unfold parseHostKey Spec.rsaBlob
   rw [mpint_pos e he, mpint_pos n hn]
   have h1 : Text.startsWith tRsa pRsaCert = false := by decide +kernel
@@ -211,14 +216,15 @@ theorem parse_rsa (e n : Nat) (he : 0 < e) (hn : 0 < n) (hel : bitLen e / 8 + 1 
   have h3 : ¬ (tRsa = tEd25519) := by decide +kernel
   have h4 : ¬ (tRsa = tEd448) := by decide +kernel
   obtain ⟨ve, hve⟩ := hexInt_of_ne_nil _ (mpBody_ne_nil e)
-  obtain ⟨vn, hvn⟩ := hexInt_of_ne_nil _ (mpBody_ne_nil n)
+  have hvn := hexInt_mpBody n
+  have h5 : Text.startsWith tRsa pSshRsa = true := by decide +kernel
   simp only [List.append_assoc, getBytes_sstr _ _ len_rsa, bind, Except.bind, ascii_rsa, h1, h2, h3, h4, if_false, Bool.false_eq_true,
     pure, Except.pure, or_self,
     getBytes_sstr _ _ (show (mpBody e).length < 2 ^ 32 by rw [mpBody_length]; exact hel),
-    getBytes_sstr_nil _ (show (mpBody n).length < 2 ^ 32 by rw [mpBody_length]; exact hnl), hve, hvn, mpBody_length]
+    getBytes_sstr_nil _ (show (mpBody n).length < 2 ^ 32 by rw [mpBody_length]; exact hnl), hve, hvn, h5, if_true, mpBody_length]
 
 theorem parse_ed25519 (pk : Bytes) (hne : pk ≠ []) (hl : pk.length < 2 ^ 32) :
-    parseHostKey (Spec.ed25519Blob pk) = .ok { keyType := tEd25519, nLen := 32, caType := [], caNLen := 0 } := by
+    parseHostKey (Spec.ed25519Blob pk) = .ok { keyType := tEd25519, nLen := 32, nBits := 0, caType := [], caNLen := 0, caNBits := 0 } := by
   unfold parseHostKey Spec.ed25519Blob
   have h1 : Text.startsWith tEd25519 pRsaCert = false := by decide +kernel
   have h2 : Text.startsWith tEd25519 pEdCert = false := by decide +kernel
@@ -227,7 +233,7 @@ theorem parse_ed25519 (pk : Bytes) (hne : pk ≠ []) (hl : pk.length < 2 ^ 32) :
     pure, Except.pure, or_self, getBytes_sstr_nil _ hl, hv]
 
 theorem parse_ed448 (pk : Bytes) (hne : pk ≠ []) (hl : pk.length < 2 ^ 32) :
-    parseHostKey (Spec.ed448Blob pk) = .ok { keyType := tEd448, nLen := 57, caType := [], caNLen := 0 } := by
+    parseHostKey (Spec.ed448Blob pk) = .ok { keyType := tEd448, nLen := 57, nBits := 0, caType := [], caNLen := 0, caNBits := 0 } := by
   unfold parseHostKey Spec.ed448Blob
   have h1 : Text.startsWith tEd448 pRsaCert = false := by decide +kernel
   have h2 : Text.startsWith tEd448 pEdCert = false := by decide +kernel
@@ -245,7 +251,7 @@ theorem len_edCert : (Spec.ascii Spec.edCertKind).length < 2 ^ 32 := by decide +
 theorem parse_rsaCert (e n ct : Nat) (f : Spec.CertFields) (ca : Bytes) (he : 0 < e) (hn : 0 < n)
     (hel : bitLen e / 8 + 1 < 2 ^ 32) (hnl : bitLen n / 8 + 1 < 2 ^ 32) (hnonce : f.nonce.length < 2 ^ 32) :
     parseHostKey (Spec.rsaCert e n ct f ca) =
-      (parseCaKey (certTail ct f ca)).map (fun c => { keyType := Spec.rsaCertKind, nLen := bitLen n / 8 + 1, caType := c.1, caNLen := c.2 }) := by
+      (parseCaKey (certTail ct f ca)).map (fun c => { keyType := Spec.rsaCertKind, nLen := bitLen n / 8 + 1, nBits := bitLen n, caType := c.1, caNLen := c.2.1, caNBits := c.2.2 }) := by
   unfold Spec.rsaCert
   rw [certBlob_eq, mpint_pos e he, mpint_pos n hn]
   unfold parseHostKey
@@ -253,18 +259,19 @@ theorem parse_rsaCert (e n ct : Nat) (f : Spec.CertFields) (ca : Bytes) (he : 0 
   have h3 : ¬ (Spec.rsaCertKind = tEd25519) := by decide +kernel
   have h4 : ¬ (Spec.rsaCertKind = tEd448) := by decide +kernel
   obtain ⟨ve, hve⟩ := hexInt_of_ne_nil _ (mpBody_ne_nil e)
-  obtain ⟨vn, hvn⟩ := hexInt_of_ne_nil _ (mpBody_ne_nil n)
+  have hvn := hexInt_mpBody n
+  have h5 : Text.startsWith Spec.rsaCertKind pSshRsa = true := by decide +kernel
   simp only [List.append_assoc, getBytes_sstr _ _ len_rsaCert, bind, Except.bind, ascii_rsaCert, h1, h3, h4, if_false, if_true,
     pure, Except.pure, true_or, getBytes_sstr _ _ hnonce,
     getBytes_sstr _ _ (show (mpBody e).length < 2 ^ 32 by rw [mpBody_length]; exact hel),
-    getBytes_sstr _ _ (show (mpBody n).length < 2 ^ 32 by rw [mpBody_length]; exact hnl), hve, hvn, mpBody_length]
+    getBytes_sstr _ _ (show (mpBody n).length < 2 ^ 32 by rw [mpBody_length]; exact hnl), hve, hvn, h5, mpBody_length]
   cases parseCaKey (certTail ct f ca) <;> rfl
 
 /-- an Ed25519 certificate: the nonce is read where an exponent would be, the public key where a modulus would be -/
 theorem parse_edCert (pk : Bytes) (ct : Nat) (f : Spec.CertFields) (ca : Bytes) (hpk : pk ≠ []) (hpl : pk.length < 2 ^ 32)
     (hnn : f.nonce ≠ []) (hnonce : f.nonce.length < 2 ^ 32) :
     parseHostKey (Spec.edCert pk ct f ca) =
-      (parseCaKey (certTail ct f ca)).map (fun c => { keyType := Spec.edCertKind, nLen := pk.length, caType := c.1, caNLen := c.2 }) := by
+      (parseCaKey (certTail ct f ca)).map (fun c => { keyType := Spec.edCertKind, nLen := pk.length, nBits := 0, caType := c.1, caNLen := c.2.1, caNBits := c.2.2 }) := by
   unfold Spec.edCert
   rw [certBlob_eq]
   unfold parseHostKey
@@ -274,8 +281,9 @@ theorem parse_edCert (pk : Bytes) (ct : Nat) (f : Spec.CertFields) (ca : Bytes) 
   have h4 : ¬ (Spec.edCertKind = tEd448) := by decide +kernel
   obtain ⟨ve, hve⟩ := hexInt_of_ne_nil _ hnn
   obtain ⟨vn, hvn⟩ := hexInt_of_ne_nil _ hpk
+  have h5 : Text.startsWith Spec.edCertKind pSshRsa = false := by decide +kernel
   simp only [getBytes_sstr _ _ len_edCert, bind, Except.bind, ascii_edCert, h1, h2, h3, h4, if_false, if_true,
-    pure, Except.pure, or_true, getBytes_sstr _ _ hnonce, getBytes_sstr _ _ hpl, hve, hvn, Bool.false_eq_true]
+    pure, Except.pure, or_true, getBytes_sstr _ _ hnonce, getBytes_sstr _ _ hpl, hve, hvn, h5, Bool.false_eq_true]
   cases parseCaKey (certTail ct f ca) <;> rfl
 
 theorem recvReply_kexReply (blob f sig : Bytes) (hb : blob.length < 2 ^ 32) (hf : f.length < 2 ^ 32) (hs : sig.length < 2 ^ 32) :
@@ -323,7 +331,7 @@ theorem slot_extendDesc (fails warns : List Str) (d : List (List (Option Str))) 
       have := hget i
       simp only [List.getD_eq_getElem?_getD] at this
       rw [← this]
-      cases p[i]? <;> simp [h1, h2]
+      cases p[i]? <;> simp
 
 /-! ### the loop of `perform_test` -/
 
@@ -714,5 +722,591 @@ theorem sorted_ext {β : Type} (a b : List (Str × β)) (ha : (a.map (·.1)).Pai
   have hperm : a.Perm b := (List.perm_ext_iff_of_nodup na nb).mpr h
   exact List.Perm.eq_of_pairwise (le := fun p q => ltS p.1 q.1)
     (fun p q _ _ h1 h2 => by unfold ltS at h1 h2; rw [ltStr_asymm _ _ h1] at h2; cases h2) pa pb hperm
+
+/-! ### association-list dictionaries -/
+
+section dict
+variable {α : Type}
+
+def keysOf (d : List (Str × α)) : List Str := d.map (·.1)
+
+theorem mem_dictDel (d : List (Str × α)) (k : Str) (e : Str × α) : e ∈ dictDel d k ↔ e ∈ d ∧ e.1 ≠ k := by
+  simp [dictDel, List.mem_filter]
+
+theorem nodup_dictDel (d : List (Str × α)) (k : Str) (h : (keysOf d).Nodup) : (keysOf (dictDel d k)).Nodup := by
+  unfold keysOf dictDel
+  exact List.Nodup.sublist (List.Sublist.map _ List.filter_sublist) h
+
+theorem any_key_iff (d : List (Str × α)) (k : Str) : d.any (·.1 = k) = true ↔ k ∈ keysOf d := by
+  simp only [keysOf, List.any_eq_true, List.mem_map, decide_eq_true_eq]
+
+theorem keys_dictSet (d : List (Str × α)) (k : Str) (v : α) :
+    keysOf (dictSet d k v) = if k ∈ keysOf d then keysOf d else keysOf d ++ [k] := by
+  unfold dictSet
+  by_cases h : d.any (·.1 = k) = true
+  · rw [if_pos h, if_pos ((any_key_iff d k).mp h)]
+    unfold keysOf
+    rw [List.map_map]
+    apply List.map_congr_left
+    intro e _
+    simp only [Function.comp]
+    split
+    · next he => exact he.symm
+    · rfl
+  · rw [if_neg h, if_neg (fun hk => h ((any_key_iff d k).mpr hk))]
+    simp [keysOf]
+
+theorem nodup_dictSet (d : List (Str × α)) (k : Str) (v : α) (h : (keysOf d).Nodup) : (keysOf (dictSet d k v)).Nodup := by
+  rw [keys_dictSet]
+  split
+  · exact h
+  · next hk => exact List.nodup_append.mpr ⟨h, by simp, by intro a ha b hb; simp only [List.mem_singleton] at hb; subst hb; intro e; subst e; exact hk ha⟩
+
+theorem mem_dictSet (d : List (Str × α)) (k : Str) (v : α) (e : Str × α) :
+    e ∈ dictSet d k v ↔ (e ∈ d ∧ e.1 ≠ k) ∨ (e = (k, v)) := by
+  unfold dictSet
+  by_cases h : d.any (·.1 = k) = true
+  · rw [if_pos h]
+    rw [List.any_eq_true] at h
+    obtain ⟨x, hx, hxk⟩ := h
+    simp only [decide_eq_true_eq] at hxk
+    simp only [List.mem_map]
+    constructor
+    · rintro ⟨y, hy, rfl⟩
+      by_cases hyk : y.1 = k
+      · right; simp [hyk]
+      · left; simp [hyk, hy]
+    · rintro (⟨he, hek⟩ | he)
+      · exact ⟨e, he, by simp [hek]⟩
+      · exact ⟨x, hx, by simp [hxk, he]⟩
+  · rw [if_neg h]
+    have hall : ∀ y ∈ d, y.1 ≠ k := by
+      intro y hy hyk
+      apply h
+      rw [List.any_eq_true]
+      exact ⟨y, hy, by simp [hyk]⟩
+    simp only [List.mem_append, List.mem_singleton]
+    constructor
+    · rintro (he | he)
+      · exact Or.inl ⟨he, hall e he⟩
+      · exact Or.inr he
+    · rintro (⟨he, _⟩ | he)
+      · exact Or.inl he
+      · exact Or.inr he
+
+theorem dictGet_iff_mem (d : List (Str × α)) (h : (keysOf d).Nodup) (k : Str) (v : α) : dictGet d k = some v ↔ (k, v) ∈ d := by
+  unfold dictGet
+  induction d with
+  | nil => simp
+  | cons x xs ih =>
+    have hx := List.nodup_cons.mp (by simpa [keysOf] using h : (x.1 :: keysOf xs).Nodup)
+    simp only [List.find?_cons]
+    by_cases hxk : x.1 = k
+    · simp only [hxk, decide_true, Option.map_some, Option.some.injEq, List.mem_cons]
+      constructor
+      · intro hv; left; rw [← hv, ← hxk]
+      · rintro (he | he)
+        · rw [← he]
+        · exfalso; apply hx.1; rw [hxk]; exact List.mem_map_of_mem (f := (·.1)) he
+    · simp only [hxk, decide_false, List.mem_cons]
+      rw [ih hx.2]
+      constructor
+      · intro h'; right; exact h'
+      · rintro (he | he)
+        · exfalso; apply hxk; rw [← he]
+        · exact he
+
+end dict
+
+/-! ### fingerprint lists -/
+
+/-- some record with fingerprint label `L` carries the bytes `raw` -/
+def LabRaw (rf : List Str) (hk : List (Str × HKRec)) (L : Str) (raw : Bytes) : Prop :=
+  ∃ e ∈ hk, fpLabel rf e.1 = L ∧ e.2.raw = raw
+
+/-- records with the same fingerprint label carry the same bytes -/
+def LabelDet (rf : List Str) (hk : List (Str × HKRec)) : Prop :=
+  ∀ e ∈ hk, ∀ e' ∈ hk, fpLabel rf e.1 = fpLabel rf e'.1 → e.2.raw = e'.2.raw
+
+theorem fpLabel_tRsa (rf : List Str) : fpLabel rf tRsa = tRsa := by unfold fpLabel; split <;> rfl
+
+theorem text_fold (rf : List Str) (hk : List (Str × HKRec)) (d0 : List (Str × Bytes)) (h0 : (keysOf d0).Nodup) :
+    let d := hk.foldl (fun d e => if isCert (fpLabel rf e.1) then d else dictSet d (fpLabel rf e.1) e.2.raw) d0
+    (keysOf d).Nodup ∧
+    (∀ L raw, (L, raw) ∈ d → (L, raw) ∈ d0 ∨ (isCert L = false ∧ LabRaw rf hk L raw)) ∧
+    (∀ L, (L ∈ keysOf d0 ∨ (isCert L = false ∧ ∃ e ∈ hk, fpLabel rf e.1 = L)) → L ∈ keysOf d) := by
+  induction hk generalizing d0 with
+  | nil =>
+    refine ⟨h0, fun L raw h => Or.inl h, ?_⟩
+    rintro L (h | ⟨_, e, he, _⟩)
+    · exact h
+    · simp at he
+  | cons x xs ih =>
+    simp only [List.foldl_cons]
+    by_cases hc : isCert (fpLabel rf x.1) = true
+    · simp only [hc, if_true]
+      obtain ⟨i1, i2, i3⟩ := ih d0 h0
+      refine ⟨i1, ?_, ?_⟩
+      · intro L raw h
+        rcases i2 L raw h with h | ⟨hcL, e, he, hl, hr⟩
+        · exact Or.inl h
+        · exact Or.inr ⟨hcL, e, by simp [he], hl, hr⟩
+      · rintro L (h | ⟨hcL, e, he, hl⟩)
+        · exact i3 L (Or.inl h)
+        · simp only [List.mem_cons] at he
+          rcases he with rfl | he
+          · rw [hl, hcL] at hc; cases hc
+          · exact i3 L (Or.inr ⟨hcL, e, he, hl⟩)
+    · simp only [hc, if_false, Bool.false_eq_true]
+      have hcf : isCert (fpLabel rf x.1) = false := by simpa using hc
+      obtain ⟨i1, i2, i3⟩ := ih (dictSet d0 (fpLabel rf x.1) x.2.raw) (nodup_dictSet d0 _ _ h0)
+      refine ⟨i1, ?_, ?_⟩
+      · intro L raw h
+        rcases i2 L raw h with h | ⟨hcL, e, he, hl, hr⟩
+        · rw [mem_dictSet] at h
+          rcases h with ⟨h, _⟩ | h
+          · exact Or.inl h
+          · simp only [Prod.mk.injEq] at h
+            obtain ⟨h1, h2⟩ := h
+            exact Or.inr ⟨by rw [h1]; exact hcf, x, by simp, h1.symm, h2.symm⟩
+        · exact Or.inr ⟨hcL, e, by simp [he], hl, hr⟩
+      · rintro L (h | ⟨hcL, e, he, hl⟩)
+        · apply i3 L; left
+          rw [keys_dictSet]; split
+          · exact h
+          · simp [h]
+        · simp only [List.mem_cons] at he
+          rcases he with rfl | he
+          · apply i3 L; left
+            rw [keys_dictSet, hl]; split
+            · next hk => exact hk
+            · simp
+          · exact i3 L (Or.inr ⟨hcL, e, he, hl⟩)
+
+theorem nodup_textFpDict (rf : List Str) (hk : List (Str × HKRec)) : (keysOf (textFpDict rf hk)).Nodup :=
+  (text_fold rf hk [] (by simp [keysOf])).1
+
+/-- every text fingerprint entry: a non-certificate label and the bytes of a record with that label -/
+theorem textFpDict_sound (rf : List Str) (hk : List (Str × HKRec)) (L : Str) (raw : Bytes) (h : (L, raw) ∈ textFpDict rf hk) :
+    isCert L = false ∧ LabRaw rf hk L raw := by
+  rcases (text_fold rf hk [] (by simp [keysOf])).2.1 L raw h with h | h
+  · simp at h
+  · exact h
+
+theorem textFpDict_complete (rf : List Str) (hk : List (Str × HKRec)) (e : Str × HKRec) (he : e ∈ hk) (hc : isCert (fpLabel rf e.1) = false) :
+    fpLabel rf e.1 ∈ keysOf (textFpDict rf hk) :=
+  (text_fold rf hk [] (by simp [keysOf])).2.2 _ (Or.inr ⟨hc, e, he, rfl⟩)
+
+theorem mem_textFpDict_iff (rf : List Str) (hk : List (Str × HKRec)) (hd : LabelDet rf hk) (L : Str) (raw : Bytes) :
+    (L, raw) ∈ textFpDict rf hk ↔ isCert L = false ∧ LabRaw rf hk L raw := by
+  constructor
+  · exact textFpDict_sound rf hk L raw
+  · rintro ⟨hc, e, he, hl, hr⟩
+    have hk' := textFpDict_complete rf hk e he (by rw [hl]; exact hc)
+    rw [hl] at hk'
+    unfold keysOf at hk'
+    rw [List.mem_map] at hk'
+    obtain ⟨p, hp, hpl⟩ := hk'
+    obtain ⟨_, e', he', hl', hr'⟩ := textFpDict_sound rf hk p.1 p.2 hp
+    have : e'.2.raw = e.2.raw := hd e' he' e he (by rw [hl', hl, hpl])
+    have hp2 : p = (L, raw) := by
+      cases p with
+      | mk a b => simp only at hpl hr'; rw [← hpl, ← hr, ← this, hr']
+    rw [← hp2]; exact hp
+
+theorem map_fst_filterMap {β γ : Type} (l : List Str) (g : Str → Option β) (f : β → γ) :
+    (l.filterMap (fun k => (g k).map (fun v => (k, f v)))).map (·.1) = l.filter (fun k => (g k).isSome) := by
+  induction l with
+  | nil => rfl
+  | cons x xs ih =>
+    simp only [List.filterMap_cons, List.filter_cons]
+    cases hg : g x with
+    | none => simpa using ih
+    | some v => simpa using ih
+
+theorem mem_textFps (rf : List Str) (hk : List (Str × HKRec)) (p : Str × Bytes) : p ∈ textFps rf hk ↔ p ∈ textFpDict rf hk := by
+  unfold textFps
+  simp only [List.mem_filterMap, mem_sortStrs]
+  have hn := nodup_textFpDict rf hk
+  constructor
+  · rintro ⟨k, _, hv⟩
+    cases hg : dictGet (textFpDict rf hk) k with
+    | none => rw [hg] at hv; simp at hv
+    | some v =>
+      rw [hg] at hv; simp only [Option.map_some, Option.some.injEq] at hv
+      rw [← hv]; exact (dictGet_iff_mem _ hn k v).mp hg
+  · intro hp
+    refine ⟨p.1, List.mem_map_of_mem (f := (·.1)) hp, ?_⟩
+    have := (dictGet_iff_mem _ hn p.1 p.2).mpr hp
+    rw [this]; rfl
+
+theorem sorted_textFps (rf : List Str) (hk : List (Str × HKRec)) : ((textFps rf hk).map (·.1)).Pairwise ltS := by
+  unfold textFps
+  have := map_fst_filterMap (sortStrs ((textFpDict rf hk).map (·.1))) (dictGet (textFpDict rf hk)) (fun (v : Bytes) => v)
+  simp only [] at this
+  rw [this]
+  exact List.Pairwise.filter _ (sorted_sortStrs _ (nodup_textFpDict rf hk))
+
+/-- one pass of the renaming loop of `build_struct` -/
+def renameStep (rf : List Str) (d : List (Str × HKRec)) (k : Str) : List (Str × HKRec) :=
+  if rf.contains k then
+    match dictGet d k with
+    | some v => dictSet (dictDel d k) tRsa v
+    | none => d
+  else d
+
+theorem jsonRename_eq (rf : List Str) (hk : List (Str × HKRec)) : jsonRename rf hk = (hk.map (·.1)).foldl (renameStep rf) hk := rfl
+
+theorem dictGet_none_not_key {α : Type} (d : List (Str × α)) (k : Str) (h : dictGet d k = none) : k ∉ keysOf d := by
+  intro hk
+  unfold keysOf at hk
+  rw [List.mem_map] at hk
+  obtain ⟨e, he, hek⟩ := hk
+  unfold dictGet at h
+  cases hf : d.find? (·.1 = k) with
+  | none => exact absurd (by simp [hek]) (List.find?_eq_none.mp hf e he)
+  | some x => rw [hf] at h; simp at h
+
+/-- the loop invariant: distinct keys, the same (label, bytes) relation as the original map, and every family key other than `ssh-rsa` still to be visited -/
+def RenInv (rf : List Str) (hk d : List (Str × HKRec)) (todo : List Str) : Prop :=
+  (keysOf d).Nodup ∧ (∀ L raw, LabRaw rf d L raw ↔ LabRaw rf hk L raw) ∧ (∀ k ∈ keysOf d, rf.contains k = true → k = tRsa ∨ k ∈ todo)
+
+theorem renameStep_inv (rf : List Str) (hk d : List (Str × HKRec)) (k : Str) (todo : List Str) (hd : LabelDet rf hk)
+    (h : RenInv rf hk d (k :: todo)) : RenInv rf hk (renameStep rf d k) todo := by
+  obtain ⟨h1, h2, h3⟩ := h
+  unfold renameStep
+  by_cases hf : rf.contains k = true
+  · rw [if_pos hf]
+    cases hg : dictGet d k with
+    | none =>
+      have hnk := dictGet_none_not_key d k hg
+      refine ⟨h1, h2, ?_⟩
+      intro k' hk' hfk'
+      rcases h3 k' hk' hfk' with h | h
+      · exact Or.inl h
+      · simp only [List.mem_cons] at h
+        rcases h with rfl | h
+        · exact absurd hk' hnk
+        · exact Or.inr h
+    | some v =>
+      have hkv : (k, v) ∈ d := (dictGet_iff_mem d h1 k v).mp hg
+      have hlk : fpLabel rf k = tRsa := by unfold fpLabel; rw [if_pos hf]
+      refine ⟨nodup_dictSet _ _ _ (nodup_dictDel d k h1), ?_, ?_⟩
+      · intro L raw
+        rw [← h2 L raw]
+        constructor
+        · rintro ⟨e, he, hl, hr⟩
+          rw [mem_dictSet] at he
+          rcases he with ⟨he, _⟩ | he
+          · rw [mem_dictDel] at he
+            exact ⟨e, he.1, hl, hr⟩
+          · rw [he] at hl hr
+            simp only at hl hr
+            rw [fpLabel_tRsa] at hl
+            exact ⟨(k, v), hkv, by rw [← hl]; exact hlk, hr⟩
+        · rintro ⟨e, he, hl, hr⟩
+          by_cases hek : e.1 = k
+          · have : e.2 = v := by
+              have := (dictGet_iff_mem d h1 e.1 e.2).mpr he
+              rw [hek, hg] at this
+              exact (Option.some.inj this).symm
+            refine ⟨(tRsa, v), ?_, ?_, ?_⟩
+            · rw [mem_dictSet]; right; rfl
+            · simp only; rw [fpLabel_tRsa, ← hl, hek, hlk]
+            · simp only; rw [← hr, this]
+          · by_cases het : e.1 = tRsa
+            · have hL : L = tRsa := by rw [← hl, het, fpLabel_tRsa]
+              have r1 : LabRaw rf hk tRsa e.2.raw := (h2 _ _).mp ⟨e, he, by rw [het, fpLabel_tRsa], rfl⟩
+              have r2 : LabRaw rf hk tRsa v.raw := (h2 _ _).mp ⟨(k, v), hkv, hlk, rfl⟩
+              obtain ⟨a, ha, hla, hra⟩ := r1
+              obtain ⟨b, hb, hlb, hrb⟩ := r2
+              have : a.2.raw = b.2.raw := hd a ha b hb (by rw [hla, hlb])
+              refine ⟨(tRsa, v), ?_, ?_, ?_⟩
+              · rw [mem_dictSet]; right; rfl
+              · simp only; rw [fpLabel_tRsa, hL]
+              · simp only; rw [← hr, ← hra, this, hrb]
+            · refine ⟨e, ?_, hl, hr⟩
+              rw [mem_dictSet]; left
+              exact ⟨(mem_dictDel d k e).mpr ⟨he, hek⟩, het⟩
+      · intro k' hk' hfk'
+        unfold keysOf at hk'
+        rw [List.mem_map] at hk'
+        obtain ⟨e, he, hek'⟩ := hk'
+        rw [mem_dictSet] at he
+        rcases he with ⟨he, _⟩ | he
+        · rw [mem_dictDel] at he
+          have : k' ∈ keysOf d := by rw [← hek']; exact List.mem_map_of_mem (f := (·.1)) he.1
+          rcases h3 k' this hfk' with h | h
+          · exact Or.inl h
+          · simp only [List.mem_cons] at h
+            rcases h with rfl | h
+            · exact absurd hek' he.2
+            · exact Or.inr h
+        · left; rw [← hek', he]
+  · rw [if_neg hf]
+    refine ⟨h1, h2, ?_⟩
+    intro k' hk' hfk'
+    rcases h3 k' hk' hfk' with h | h
+    · exact Or.inl h
+    · simp only [List.mem_cons] at h
+      rcases h with rfl | h
+      · exact absurd hfk' hf
+      · exact Or.inr h
+
+theorem rename_fold_inv (rf : List Str) (hk : List (Str × HKRec)) (hd : LabelDet rf hk) (todo : List Str) (d : List (Str × HKRec))
+    (h : RenInv rf hk d todo) : RenInv rf hk (todo.foldl (renameStep rf) d) [] := by
+  induction todo generalizing d with
+  | nil => exact h
+  | cons k ks ih => exact ih _ (renameStep_inv rf hk d k ks hd h)
+
+theorem jsonRename_inv (rf : List Str) (hk : List (Str × HKRec)) (hn : (keysOf hk).Nodup) (hd : LabelDet rf hk) :
+    RenInv rf hk (jsonRename rf hk) [] := by
+  rw [jsonRename_eq]
+  apply rename_fold_inv rf hk hd
+  exact ⟨hn, fun _ _ => Iff.rfl, fun k hk' _ => Or.inr hk'⟩
+
+theorem mem_jsonFps (rf : List Str) (hk : List (Str × HKRec)) (hn : (keysOf hk).Nodup) (hd : LabelDet rf hk) (L : Str) (raw : Bytes) :
+    (L, raw) ∈ jsonFps rf hk ↔ isCert L = false ∧ LabRaw rf hk L raw := by
+  obtain ⟨i1, i2, i3⟩ := jsonRename_inv rf hk hn hd
+  have hlab : ∀ e ∈ jsonRename rf hk, fpLabel rf e.1 = e.1 := by
+    intro e he
+    unfold fpLabel
+    split
+    · next hc =>
+      rcases i3 e.1 (List.mem_map_of_mem (f := (·.1)) he) hc with h | h
+      · exact h.symm
+      · simp at h
+    · rfl
+  rw [← i2 L raw]
+  unfold jsonFps
+  simp only [List.mem_filterMap, List.mem_filter, mem_sortStrs, Bool.not_eq_true', Option.map_eq_some_iff, Prod.mk.injEq]
+  constructor
+  · rintro ⟨k, ⟨_, hc⟩, v, hv, rfl, rfl⟩
+    have hm := (dictGet_iff_mem _ i1 k v).mp hv
+    exact ⟨hc, (k, v), hm, hlab _ hm, rfl⟩
+  · rintro ⟨hc, e, he, hl, hr⟩
+    have hl' : e.1 = L := by rw [← hl, hlab e he]
+    refine ⟨L, ⟨?_, hc⟩, e.2, ?_, rfl, hr⟩
+    · rw [← hl']; exact List.mem_map_of_mem (f := (·.1)) he
+    · rw [← hl']; exact (dictGet_iff_mem _ i1 e.1 e.2).mpr he
+
+theorem sorted_jsonFps (rf : List Str) (hk : List (Str × HKRec)) (hn : (keysOf hk).Nodup) (hd : LabelDet rf hk) :
+    ((jsonFps rf hk).map (·.1)).Pairwise ltS := by
+  obtain ⟨i1, _, _⟩ := jsonRename_inv rf hk hn hd
+  unfold jsonFps
+  have := map_fst_filterMap ((sortStrs ((jsonRename rf hk).map (·.1))).filter (fun k => !isCert k)) (dictGet (jsonRename rf hk)) (fun (v : HKRec) => v.raw)
+  rw [this]
+  exact List.Pairwise.filter _ (List.Pairwise.filter _ (sorted_sortStrs _ i1))
+
+/-- **text and JSON list the same fingerprint entries** (label and hashed bytes, in the same order), for every host-key map with distinct
+    types in which records sharing a fingerprint label share their bytes -/
+theorem textFps_eq_jsonFps (rf : List Str) (hk : List (Str × HKRec)) (hn : (keysOf hk).Nodup) (hd : LabelDet rf hk) :
+    textFps rf hk = jsonFps rf hk := by
+  apply sorted_ext _ _ (sorted_textFps rf hk) (sorted_jsonFps rf hk hn hd)
+  intro p
+  obtain ⟨L, raw⟩ := p
+  rw [mem_textFps, mem_textFpDict_iff rf hk hd, mem_jsonFps rf hk hn hd]
+
+/-! ### small facts used by the property file -/
+
+theorem isEcc_nil : isEcc [] = false := by decide +kernel
+theorem not_ecdsa_nil : Text.startsWith [] pEcdsa = false := by decide +kernel
+
+theorem not_ecdsa_of_not_ecc (t : Str) (h : isEcc t = false) : Text.startsWith t pEcdsa = false := by
+  unfold isEcc at h
+  simp only [Bool.or_eq_false_iff] at h
+  exact h.2
+
+theorem find_toReport (hk : List (Str × HKRec)) (n : Str) :
+    (toReport hk).find? (·.1 = n) = (hk.find? (·.1 = n)).map (fun e => (e.1, e.2.info)) := by
+  unfold toReport
+  induction hk with
+  | nil => rfl
+  | cons x xs ih =>
+    simp only [List.map_cons, List.find?_cons]
+    by_cases h : x.1 = n <;> simp [h, ih]
+
+theorem notesOf_map_some (lvl : Report.Level) (l : List Str) :
+    Report.notesOf lvl (l.map some) = l.map (fun t => ({ level := lvl, text := t } : Report.Note)) := by
+  unfold Report.notesOf
+  induction l with
+  | nil => rfl
+  | cons x xs ih => simp only [List.map_cons, List.filterMap_cons, id] at ih ⊢; rw [ih]
+
+theorem notesOf_append (lvl : Report.Level) (a b : List (Option Str)) : Report.notesOf lvl (a ++ b) = Report.notesOf lvl a ++ Report.notesOf lvl b := by
+  simp [Report.notesOf, List.filterMap_append]
+
+
+section scan
+variable {σ : Type}
+
+/-! ### the host-key map after a scan: distinct types, one record for the whole RSA family -/
+
+def FamSame (rf : List Str) (hk : List (Str × HKRec)) : Prop :=
+  ∀ e ∈ hk, ∀ e' ∈ hk, rf.contains e.1 = true → rf.contains e'.1 = true → e.2 = e'.2
+
+theorem keys_setHostKey (hk : List (Str × HKRec)) (n : Str) (r : HKRec) :
+    keysOf (setHostKey hk n r) = if n ∈ keysOf hk then keysOf hk else keysOf hk ++ [n] := by
+  unfold setHostKey
+  by_cases h : hk.any (·.1 = n) = true
+  · rw [if_pos h, if_pos ((any_key_iff hk n).mp h)]
+  · rw [if_neg h, if_neg (fun hk' => h ((any_key_iff hk n).mpr hk'))]; simp [keysOf]
+
+theorem nodup_setHostKey (hk : List (Str × HKRec)) (n : Str) (r : HKRec) (h : (keysOf hk).Nodup) : (keysOf (setHostKey hk n r)).Nodup := by
+  rw [keys_setHostKey]
+  split
+  · exact h
+  · next hk' => exact List.nodup_append.mpr ⟨h, by simp, by intro a ha b hb; simp only [List.mem_singleton] at hb; subst hb; intro e; subst e; exact hk' ha⟩
+
+theorem mem_setHostKey (hk : List (Str × HKRec)) (n : Str) (r : HKRec) (e : Str × HKRec) (h : e ∈ setHostKey hk n r) : e ∈ hk ∨ e = (n, r) := by
+  unfold setHostKey at h
+  split at h
+  · exact Or.inl h
+  · simp only [List.mem_append, List.mem_singleton] at h; exact h
+
+theorem mem_setHostKey_of_mem (hk : List (Str × HKRec)) (n : Str) (r : HKRec) (e : Str × HKRec) (h : e ∈ hk) : e ∈ setHostKey hk n r := by
+  unfold setHostKey
+  split
+  · exact h
+  · simp [h]
+
+theorem foldl_setHostKey_mem (names : List Str) (hk : List (Str × HKRec)) (r : HKRec) :
+    ((keysOf hk).Nodup → (keysOf (names.foldl (fun h n => setHostKey h n r) hk)).Nodup) ∧
+    (∀ e ∈ names.foldl (fun h n => setHostKey h n r) hk, e ∈ hk ∨ (e.1 ∈ names ∧ e.2 = r)) ∧
+    (∀ e ∈ hk, e ∈ names.foldl (fun h n => setHostKey h n r) hk) := by
+  induction names generalizing hk with
+  | nil => exact ⟨id, fun e he => Or.inl he, fun e he => he⟩
+  | cons a as ih =>
+    simp only [List.foldl_cons]
+    obtain ⟨i1, i2, i3⟩ := ih (setHostKey hk a r)
+    refine ⟨fun h => i1 (nodup_setHostKey hk a r h), ?_, fun e he => i3 e (mem_setHostKey_of_mem hk a r e he)⟩
+    intro e he
+    rcases i2 e he with h | ⟨h1, h2⟩
+    · rcases mem_setHostKey hk a r e h with h | h
+      · exact Or.inl h
+      · right; rw [h]; simp
+    · right; exact ⟨by simp [h1], h2⟩
+
+/-- invariant of the loop of `perform_test` -/
+def ScanInv (cfg : Cfg) (st : St σ) : Prop :=
+  (keysOf st.hostKeys).Nodup ∧ FamSame cfg.rsaFamily st.hostKeys ∧
+  (st.halt = none → (∃ e ∈ st.hostKeys, cfg.rsaFamily.contains e.1 = true) → ∀ n ∈ cfg.rsaFamily, st.parsed.contains n = true)
+
+theorem step_inv (cfg : Cfg) (srv : σ → Str → Outcome × σ) (keys : List Str) (st : St σ) (t : HostKeyType)
+    (h : ScanInv cfg st) : ScanInv cfg (step cfg srv keys st t) := by
+  obtain ⟨h1, h2, h3⟩ := h
+  unfold step
+  by_cases hh : st.halt.isSome = true
+  · simp only [hh, if_true]; exact ⟨h1, h2, h3⟩
+  · have hnone : st.halt = none := by cases hq : st.halt with | none => rfl | some x => rw [hq] at hh; simp at hh
+    by_cases hp : st.parsed.contains t.name = true
+    · simp only [hh, hp, if_true, if_false, Bool.false_eq_true]; exact ⟨h1, h2, h3⟩
+    · by_cases hk : keys.contains t.name = false
+      · simp only [hh, hp, hk, if_true, if_false, Bool.false_eq_true]; exact ⟨h1, h2, h3⟩
+      · have hk := (Bool.not_eq_false _).mp hk
+        simp only [hh, hp, hk, if_false, Bool.false_eq_true, Bool.true_eq_false]
+        cases hr : probeResult (srv st.srv t.name).1 with
+        | stop => exact ⟨h1, h2, fun hc => by simp at hc⟩
+        | skip => exact ⟨h1, h2, h3⟩
+        | got r =>
+          simp only []
+          -- the new host-key map
+          generalize hhk2 : (if t.cert = false ∧ cfg.rsaFamily.contains t.name = true then
+              cfg.rsaFamily.foldl (fun h n => setHostKey h n r) (setHostKey st.hostKeys t.name r) else setHostKey st.hostKeys t.name r) = hk2
+          have hnd : (keysOf hk2).Nodup := by
+            rw [← hhk2]; split
+            · exact (foldl_setHostKey_mem cfg.rsaFamily _ r).1 (nodup_setHostKey _ _ _ h1)
+            · exact nodup_setHostKey _ _ _ h1
+          have hmem : ∀ e ∈ hk2, e ∈ st.hostKeys ∨ e.2 = r ∧ (e.1 = t.name ∨ (cfg.rsaFamily.contains t.name = true ∧ cfg.rsaFamily.contains e.1 = true)) := by
+            intro e he
+            rw [← hhk2] at he
+            split at he
+            · next hc =>
+              rcases (foldl_setHostKey_mem cfg.rsaFamily _ r).2.1 e he with h | ⟨ha, hb⟩
+              · rcases mem_setHostKey _ _ _ _ h with h | h
+                · exact Or.inl h
+                · right; rw [h]; exact ⟨rfl, Or.inl rfl⟩
+              · right; exact ⟨hb, Or.inr ⟨hc.2, by simpa using ha⟩⟩
+            · rcases mem_setHostKey _ _ _ _ he with h | h
+              · exact Or.inl h
+              · right; rw [h]; exact ⟨rfl, Or.inl rfl⟩
+          have hsub : ∀ e ∈ st.hostKeys, e ∈ hk2 := by
+            intro e he
+            rw [← hhk2]; split
+            · exact (foldl_setHostKey_mem cfg.rsaFamily _ r).2.2 e (mem_setHostKey_of_mem _ _ _ _ he)
+            · exact mem_setHostKey_of_mem _ _ _ _ he
+          have hfs : FamSame cfg.rsaFamily hk2 := by
+            by_cases hf : cfg.rsaFamily.contains t.name = true
+            · -- nothing of the family was recorded before
+              have hno : ∀ e ∈ st.hostKeys, cfg.rsaFamily.contains e.1 = false := by
+                intro e he
+                cases hc : cfg.rsaFamily.contains e.1 with
+                | false => rfl
+                | true =>
+                  have := h3 hnone ⟨e, he, hc⟩ t.name (by simpa using hf)
+                  exact absurd this hp
+              intro e he e' he' hc hc'
+              have v : ∀ x ∈ hk2, cfg.rsaFamily.contains x.1 = true → x.2 = r := by
+                intro x hx hcx
+                rcases hmem x hx with h | ⟨h, _⟩
+                · rw [hno x h] at hcx; cases hcx
+                · exact h
+              rw [v e he hc, v e' he' hc']
+            · intro e he e' he' hc hc'
+              have v : ∀ x ∈ hk2, cfg.rsaFamily.contains x.1 = true → x ∈ st.hostKeys := by
+                intro x hx hcx
+                rcases hmem x hx with h | ⟨_, h | ⟨h, _⟩⟩
+                · exact h
+                · rw [h] at hcx; exact absurd hcx hf
+                · exact absurd h hf
+              exact h2 e (v e he hc) e' (v e' he' hc') hc hc'
+          cases he : editAll st.db (if cfg.rsaFamily.contains t.name = true then cfg.rsaFamily else [t.name])
+              (comments cfg t.name t.cert r.info.size r.info.caType r.info.caSize).1
+              (comments cfg t.name t.cert r.info.size r.info.caType r.info.caSize).2 with
+          | none => exact ⟨hnd, hfs, fun hc => by simp at hc⟩
+          | some db' =>
+            refine ⟨hnd, hfs, ?_⟩
+            intro _ ⟨e, he2, hce⟩ n hn
+            simp only [List.contains_eq_mem, List.mem_append, decide_eq_true_eq, Bool.decide_or, Bool.or_eq_true]
+            by_cases hf : cfg.rsaFamily.contains t.name = true
+            · right; rw [if_pos (by simpa using hf)]; exact hn
+            · left
+              have : e ∈ st.hostKeys := by
+                rcases hmem e he2 with h | ⟨_, h | ⟨h, _⟩⟩
+                · exact h
+                · rw [h] at hce; exact absurd hce hf
+                · exact absurd h hf
+              simpa using h3 hnone ⟨e, this, hce⟩ n hn
+
+theorem perform_inv (cfg : Cfg) (srv : σ → Str → Outcome × σ) (keys : List Str) (ts : List HostKeyType) (st : St σ)
+    (h : ScanInv cfg st) : ScanInv cfg (ts.foldl (step cfg srv keys) st) := by
+  induction ts generalizing st with
+  | nil => exact h
+  | cons t ts ih => exact ih _ (step_inv cfg srv keys st t h)
+
+theorem run_inv (cfg : Cfg) (srv : σ → Str → Outcome × σ) (s0 : σ) (db : DB) (kex keys : List Str) : ScanInv cfg (run cfg srv s0 db kex keys) := by
+  have h0 : ScanInv cfg (initSt s0 db) := ⟨by simp [initSt, keysOf], by intro e he; simp [initSt] at he, by intro _ ⟨e, he, _⟩; simp [initSt] at he⟩
+  unfold run
+  split
+  · exact perform_inv cfg srv keys cfg.types _ h0
+  · exact h0
+
+theorem labelDet_of_famSame (rf : List Str) (hk : List (Str × HKRec)) (ht : rf.contains tRsa = true) (hn : (keysOf hk).Nodup) (hf : FamSame rf hk) :
+    LabelDet rf hk := by
+  intro e he e' he' hl
+  unfold fpLabel at hl
+  by_cases hc : rf.contains e.1 = true <;> by_cases hc' : rf.contains e'.1 = true
+  · rw [hf e he e' he' hc hc']
+  · rw [if_pos hc, if_neg hc'] at hl
+    rw [← hl] at hc'; exact absurd ht hc'
+  · rw [if_neg hc, if_pos hc'] at hl
+    rw [hl] at hc; exact absurd ht hc
+  · rw [if_neg hc, if_neg hc'] at hl
+    have a := (dictGet_iff_mem hk hn e.1 e.2).mpr he
+    have b := (dictGet_iff_mem hk hn e'.1 e'.2).mpr he'
+    rw [hl, b] at a
+    rw [Option.some.inj a]
+
+end scan
 
 end SshAudit.HostKey
